@@ -37,6 +37,11 @@ def single_sample_specs(ctx):
         if nfs is not None:
             sp["options"]["noise_final_samples"] = nfs
         specs.append(sp)
+    # a noisy target with uncertainty_handling explicitly False (not merely unset): the start-up test still decides
+    for _ in range(3 if ctx.quick else 12):
+        sp = gen.make_spec(rng, D=rng.choice([1, 2]), mode="auto", geom="box", cons=None, opt_loc="inside", target="quad")
+        sp["options"] = {"n_search": 32, "max_fun_evals": 70, "noise_final_samples": rng.choice([1, 3, 5]), "uncertainty_handling": False}
+        specs.append(sp)
     # deterministic targets with a large value: identical repeats, must stay deterministic
     for _ in range(2 if ctx.quick else 8):
         sp = gen.make_spec(rng, D=rng.choice([1, 2]), mode="det", geom="box", cons=None, opt_loc="inside", target="quad")
